@@ -193,7 +193,11 @@ func buildUCI(params json.RawMessage) explore.Scenario {
 				default:
 					if strings.HasPrefix(l, "!") {
 						l = l[1:]
-						vs.WaitStep("release", p.Release)
+						if p.Release < 0 {
+							vs.WaitLazy("release")
+						} else {
+							vs.WaitStep("release", p.Release)
+						}
 					}
 					vs.WaitUntil("gui-send", func() bool { return len(r.in) < cap(r.in) || dead() })
 					if dead() {
